@@ -662,6 +662,129 @@ func noWriteBetween(cell ssa.Value, y, x *ssa.UnOp) bool {
 	return !bad
 }
 
+// KnownNil reports whether v is provably nil at instruction `at`: the nil
+// constant, or a value whose use is dominated by the ==nil edge of a test of
+// that value (or of the same local cell with no write in between).
+func KnownNil(v ssa.Value, at ssa.Instruction) bool {
+	return knownNil(v, at.Block(), 0)
+}
+
+func knownNil(v ssa.Value, at *ssa.BasicBlock, depth int) bool {
+	if depth > 6 {
+		return false
+	}
+	switch x := v.(type) {
+	case *ssa.Const:
+		return x.Value == nil
+	case *ssa.ChangeInterface:
+		return knownNil(x.X, at, depth+1)
+	case *ssa.Phi:
+		for i, e := range x.Edges {
+			if !knownNil(e, x.Block().Preds[i], depth+1) {
+				return false
+			}
+		}
+		return true
+	case *ssa.UnOp:
+		if x.Op == token.MUL {
+			if ri, ok := ReachingStores(x); ok {
+				if !ri.unknown && len(ri.stores) > 0 || (!ri.unknown && ri.zero) {
+					all := true
+					for _, s := range ri.stores {
+						if !knownNil(s.Val, s.Block(), depth+1) {
+							all = false
+							break
+						}
+					}
+					if all {
+						return true
+					}
+				}
+				if cellTestedNil(x, at) {
+					return true
+				}
+			}
+		}
+	}
+	return dominatedByNilTest(v, at, true)
+}
+
+// dominatedByNilTest: some If on v ==/!= nil whose nil (wantNil) or non-nil
+// successor edge dominates block at.
+func dominatedByNilTest(v ssa.Value, at *ssa.BasicBlock, wantNil bool) bool {
+	refs := v.Referrers()
+	if refs == nil {
+		return false
+	}
+	for _, r := range *refs {
+		bo, ok := r.(*ssa.BinOp)
+		if !ok || (bo.Op != token.EQL && bo.Op != token.NEQ) {
+			continue
+		}
+		if !(IsNilConst(bo.X) || IsNilConst(bo.Y)) {
+			continue
+		}
+		for _, r2 := range *bo.Referrers() {
+			iff, ok := r2.(*ssa.If)
+			if !ok {
+				continue
+			}
+			a := AtomOf(iff)
+			if a.Op != token.EQL && a.Op != token.NEQ {
+				continue
+			}
+			s := a.TrueSucc() // atom true
+			isNilWhenTrue := a.Op == token.EQL
+			if isNilWhenTrue != wantNil {
+				s = 1 - s
+			}
+			succ := iff.Block().Succs[s]
+			if edgeDominates(iff.Block(), succ, at) {
+				return true
+			}
+		}
+	}
+	return false
+}
+
+func cellTestedNil(x *ssa.UnOp, at *ssa.BasicBlock) bool {
+	cell := cellOf(x.X)
+	if cell == nil {
+		return false
+	}
+	refs := cell.Referrers()
+	if refs == nil {
+		return false
+	}
+	mine, _ := ReachingStores(x)
+	for _, r := range *refs {
+		y, ok := r.(*ssa.UnOp)
+		if !ok || y.Op != token.MUL || y == x {
+			continue
+		}
+		if !dominatedByNilTest(y, x.Block(), true) {
+			continue
+		}
+		other, _ := ReachingStores(y)
+		if sameDefs(mine, other) && !mine.unknown {
+			return true
+		}
+		if mine.unknown && noWriteBetween(cell, y, x) {
+			return true
+		}
+	}
+	return false
+}
+
+// MaybeErrorExit: ret has an error result that is not provably nil.
+func MaybeErrorExit(ret *ssa.Return) bool {
+	ei := ErrIndex(ret.Parent())
+	if ei < 0 || ei >= len(ret.Results) {
+		return false
+	}
+	return !KnownNil(ret.Results[ei], ret)
+}
+
 // ErrIndex returns the index of the last result of fn if it is of type error,
 // else -1.
 func ErrIndex(fn *ssa.Function) int {
